@@ -9,8 +9,37 @@ use verif_harness::*;
 
 const TOP: u64 = (1 << 31) - 2; // largest offset whose column still fits a TLC integer
 
+/// Texts whose breaks (LF, CR, CRLF, CR CR LF ...) straddle power-of-two block boundaries
+/// (64 .. 65536): a builder that scans in blocks must not split a CRLF.
+fn gen_block_text(r: &mut Rng) -> Vec<u8> {
+    let block = *r.pick(&[64usize, 256, 1024, 4096, 4096, 8192, 65536]);
+    let nblocks = if block >= 65536 { 1 } else { r.range(1, 4) as usize };
+    let mut t = vec![b'a'; block * nblocks + r.below(200) as usize + 2];
+    for k in 1..=nblocks {
+        let at = k * block; // first byte of block k
+        let brk: &[u8] = *r.pick(&[&b"\r\n"[..], b"\r\n", b"\n", b"\r", b"\r\r\n", b"\n\r", b"\r\n\r\n"]);
+        // place the break so that it ends at, straddles, or starts at the boundary
+        let shift = r.below(brk.len() as u64 + 1) as usize;
+        let start = at - shift.min(at);
+        for (i, &b) in brk.iter().enumerate() {
+            if start + i < t.len() {
+                t[start + i] = b;
+            }
+        }
+    }
+    // a few more ordinary breaks
+    for _ in 0..r.below(6) {
+        let p = r.below(t.len() as u64) as usize;
+        t[p] = if r.coin() { b'\n' } else { b'\r' };
+    }
+    t
+}
+
 fn gen_text(r: &mut Rng) -> Vec<u8> {
-    let lines = *r.pick(&[0u64, 1, 2, 3, 5, 15, 16, 17, 18, 33, 40, 100, 400]);
+    if r.chance(1, 7) {
+        return gen_block_text(r);
+    }
+    let lines =*r.pick(&[0u64, 1, 2, 3, 5, 15, 16, 17, 18, 33, 40, 100, 400]);
     let brk_mode = r.below(5); // 0 LF, 1 CR, 2 CRLF, 3 mixed, 4 mixed with LFCR / CRCR clusters
     let mut t = vec![];
     if r.chance(1, 5) {
